@@ -69,7 +69,7 @@ struct BitRunner {
 			F &f = second ? *fb : *fa; R &r = second ? rb : ra;
 			F &of = second ? *fa : *fb; R &orr = second ? ra : rb;
 			const char *w = second ? "b" : "a";
-			unsigned op = t.pick(24);
+			unsigned op = t.pick(28);
 			switch(op) {
 			case 0: { unsigned long long v = val(); c.op("%s = bitset(%#llx)", w, v); f.~F(); memset((void *)&f, 0xA5, sizeof(F)); new (&f) F(v); r = from_val(v); break; }
 			case 1: { size_t p = t.pick(N); bool v = t.flip(); c.op("%s.set(%zu,%d)", w, p, (int)v); f.set(p, v); r.set(p, v); break; }
@@ -87,6 +87,11 @@ struct BitRunner {
 			case 13: c.op("%s |= other", w); f |= of; r |= orr; break;
 			case 14: c.op("%s ^= other", w); f ^= of; r ^= orr; break;
 			case 15: c.op("%s = ~%s", w, w); f = ~f; r = ~r; break;
+			// the right-hand side is the object itself (through an alias)
+			case 24: { auto &fa = f; auto &ra = r; c.op("%s &= %s (itself)", w, w); f &= fa; r &= ra; c.tag("bitset-self-op"); break; }
+			case 25: { auto &fa = f; auto &ra = r; c.op("%s |= %s (itself)", w, w); f |= fa; r |= ra; c.tag("bitset-self-op"); break; }
+			case 26: { auto &fa = f; auto &ra = r; c.op("%s ^= %s (itself)", w, w); f ^= fa; r ^= ra; c.tag("bitset-self-op"); break; }
+			case 27: { auto &fa = f; c.op("%s == %s (itself), %s = %s", w, w, w, w); VCHECK(c, "C18", f == fa, "a bitset is not equal to itself"); f = fa; break; }
 			case 16: case 17: case 18: case 19: {
 				size_t sh; unsigned how = t.pick(7);
 				if(how == 0) sh = t.pick(8); else if(how == 1) sh = 64 * t.pick(N / 64 + 3) ; else if(how == 2) sh = N - 1 + t.pick(3); else if(how == 3) sh = N + t.pick(131);
@@ -206,6 +211,26 @@ void run_prng(Ctx &c) {
 	} else {
 		uint64_t seed = t.pick(4) == 0 ? 42 : t.next64(), seq = t.pick(4) == 0 ? 54 : (t.pick(3) == 0 ? 1 : t.next64());
 		bool dseq = t.pick(5) == 0;
+		// Crafted seeds: the first raw output is chosen (the generator is run backwards through the seeding sequence), so that the
+		// first bounded draw meets the rejection threshold 2^32 mod bound exactly, or one below / above it. A random seed does
+		// that with probability 2^-32 per draw.
+		uint32_t crafted_bound = 0;
+		if(t.pick(3) == 0) {
+			static const uint32_t cb[] = {2, 3, 5, 6, 7, 1000, 0x7fffffffu, 0x80000001u, 0xfffffffbu, 3000000000u, 10, 100};
+			crafted_bound = t.pick(4) ? cb[t.pick(12)] : 2 + t.next() % 0xfffffffdu;
+			uint32_t threshold = (0u - crafted_bound) % crafted_bound;
+			uint32_t want = threshold + (uint32_t)t.pick(3) - 1;          // threshold-1, threshold, threshold+1
+			// a state whose output is `want`: rotation 0 (top five bits clear), then solve xs = ((old >> 18) ^ old) >> 27 from the top bit down
+			uint64_t old = 0;
+			for(int i = 58; i >= 27; i--) { uint64_t hi = i + 18 <= 63 ? (old >> (i + 18)) & 1 : 0; uint64_t bit = ((uint64_t)(want >> (i - 27)) & 1) ^ hi; old |= bit << i; }
+			old |= t.next64() & ((uint64_t(1) << 27) - 1);                     // the low 27 bits do not reach the output
+			if(dseq) seq = 1;
+			uint64_t inc = (seq << 1u) | 1u;
+			// seeding: state = ((0 * M + inc) + seed) * M + inc  =>  seed = (old - inc) * M^-1 - inc
+			uint64_t M = 6364136223846793005ULL, Minv = 1; for(int k = 0; k < 6; k++) Minv *= 2 - M * Minv;
+			seed = (old - inc) * Minv - inc;
+			c.tag("pcg-crafted-threshold");
+		}
 		frg::pcg_basic32 f = dseq ? frg::pcg_basic32(seed) : frg::pcg_basic32(seed, seq);
 		RefPcg r(seed, dseq ? 1 : seq);
 		c.op("pcg32 seed %#llx seq %#llx", (unsigned long long)seed, (unsigned long long)(dseq ? 1 : seq));
@@ -216,6 +241,8 @@ void run_prng(Ctx &c) {
 			c.tag("pcg-known-answer");
 		}
 		unsigned n = 20 + t.pick(200);
+		if(crafted_bound) { uint32_t a = f(crafted_bound), b = r.bounded(crafted_bound); c.op("first bounded draw with bound %u meets the rejection threshold", crafted_bound);
+			VCHECK(c, "C18", a == b, "pcg32(%u): the draw whose raw value lies at the rejection threshold is %u, reference %u", crafted_bound, a, b); }
 		for(unsigned i = 0; i < n; i++) {
 			unsigned how = t.pick(4);
 			if(how == 0) { uint32_t a = f(), b = r.next(); VCHECK(c, "C18", a == b, "pcg32 draw %u is %#x, reference %#x", i, a, b); }
